@@ -114,6 +114,10 @@ pub trait BoostedYieldsFactorsModule:
             min_energy_amount > 0 && min_farm_amount > 0,
             "Min amounts must be greater than 0"
         );
+        require!(
+            user_rewards_energy_const > 0 || user_rewards_farm_const > 0,
+            "Rewards constants cannot both be 0"
+        );
 
         let factors = BoostedYieldsFactors {
             max_rewards_factor,
